@@ -108,8 +108,51 @@ def handmade():
         'cmd (x | y)... "dd" z;',
         'cmd -(a|b)(c|d) | -(a|b)(d|c);',
         'cmd <A>... ;\n<A> ::= [<A2>] k;\n<A2> ::= m || n;',
+        # within-word expressions that differ in ONE label only (they must not be interned as one)
+        'cmd build --mode=(fast "quick build" | full) | test --mode=(fast "quick tests" | full);',
+        'cmd a --k=(x | y "dy") | b --k=(x | y);',
+        'cmd a --k=(x | y) | b --k=(x || y);',
+        'cmd a --k=(x "d" | y) | b --k=(x | y "d");',
+        'cmd --k=(x "one") --k=(x "two") --k=x;',
+        'cmd x || a b || (y || a c);',                      # nested ||: numbering starts afresh
+        'cmd (a b || (a c || z)) | ((x || a b) | (y || a c));',
     ]
     return [('hand', t.encode()) for t in texts]
+
+
+def near_identical_words(ctx):
+    """Two or three within-word expressions of one grammar that are identical except for ONE label: a description
+    added/changed on one literal, or one alternative moved behind a ||.  They denote different labelled languages,
+    so their automata must stay distinct (and everything hanging off them: descriptions, levels)."""
+    r = ctx['rng']
+    out = []
+    for _ in range(30 if ctx['tier'] == 'quick' else 600):
+        head = r.choice(['--mode=', '--k=', '-o', 'p:'])
+        vals = r.sample(['fast', 'full', 'x', 'y', 'zz', 'w1'], r.choice([2, 3]))
+        def word(descr_at=None, descr=None, fb_at=None):
+            alts = [('lit', v, (descr if i == descr_at else None)) for i, v in enumerate(vals)]
+            if fb_at is not None and 0 < fb_at < len(alts):
+                left = alts[:fb_at]; right = alts[fb_at:]
+                mk = lambda xs: xs[0] if len(xs) == 1 else ('alt', xs)
+                body = ('fb', [mk(left), mk(right)])
+            else:
+                body = ('alt', alts)
+            return ('sub', [('lit', head, None), body])
+        i = r.randrange(len(vals))
+        variants = [word(), word(i, 'd one'), word(i, 'd two'), word((i + 1) % len(vals), 'd one'), word(fb_at=1), word(i, 'd one', fb_at=1)]
+        ws = r.sample(variants, r.choice([2, 2, 3]))
+        leads = r.sample(['build', 'test', 'run', 'q'], len(ws))
+        shape = r.random()
+        if shape < 0.5:
+            e = ('alt', [('seq', [('lit', l, None), w]) for l, w in zip(leads, ws)])
+            stmts = [('call', 'cmd', e)]
+        elif shape < 0.75:
+            stmts = [('call', 'cmd', ('seq', [('lit', l, None), w])) for l, w in zip(leads, ws)]
+        else:
+            stmts = [('call', 'cmd', ('alt', [('seq', [('lit', leads[0], None), ws[0]]), ('seq', [('lit', leads[1], None), ('nt', 'W')])])),
+                     ('def', 'W', None, ws[1])]
+        out.append(('near', gen.show_grammar(stmts).encode()))
+    return out
 
 
 def random_grammars(ctx):
@@ -266,7 +309,7 @@ def run(ctx, res):
     with build.Lock():
         exe = build.harness()
     t0 = time.time()
-    cases_in = handmade() + exhaustive(ctx) + random_grammars(ctx)
+    cases_in = handmade() + near_identical_words(ctx) + exhaustive(ctx) + random_grammars(ctx)
     texts = [c[1] for c in cases_in]
     r = ctx['rng']
     dumps = impl.dump(exe, texts, ['parse', 'check', 'regex', 'subraw', 'raw', 'min'], SHELLS)
